@@ -305,6 +305,13 @@ def r5_collection(chk: Check):
                     "some path collects neither the producing task nor the argument values", loc)
         rec = [c for b in vals[0].ast.body for c in walk_local(b) if isinstance(c, ast.Call) and dotted(c.func) == "updatedependencies"]
         chk.require(len(rec) == 1, chk.fkey(m, "values recursion"), "argument values are not passed to updatedependencies()", loc)
+        # ... every value: the only reason to skip one is that it is None (Meta / Option / generated parameters can hold task outputs too)
+        for rc in rec:
+            for nd in g.nodes_of(rc):
+                gs = [(src(t.ast), pol) for t, pol in g.guards(nd) if t.kind == "test" and g.dominates(vals[0], t)]
+                extra = [x for x in gs if not (x[0].endswith(" is None") or x[0].endswith(".name in self.values"))]
+                chk.require(not extra, chk.fkey(m, "every value is searched"),
+                            f"argument values are searched for upstream tasks only under {extra}: a task reachable through a skipped parameter (e.g. Meta) would not be waited for", chk.loc(m.module, rc))
         # values of ALL arguments (no filter on ignored / generated)
         xv = tree.func("core.objects", "ConfigInformation.xpmvalues")
         outputs_linked_to_producer(chk)
